@@ -11,7 +11,7 @@ def region(r, low=False):
 
 def placement_suite(r, prefix, tier="quick"):
     """one history per kind of target placement: every arena mode that does not need the window reserved, plus the deterministic-trampoline ones"""
-    modes = ["page0"] * 3 + ["packed"] * 3 + ["neigh"] * 2 + ["straddle"] * 2 + ["low"] * 2 + ["alias"] * 3 + ["hole_lo", "hole_hi", "hole", "edge"] + [f"align{k}" for k in (1, 2, 3, 5, 7, 8, 9, 13, 15)]
+    modes = ["page0"] * 3 + ["foreign_lo"] * 2 + ["packed"] * 3 + ["neigh"] * 2 + ["straddle"] * 2 + ["low"] * 2 + ["alias"] * 3 + ["hole_lo", "hole_hi", "hole", "edge"] + [f"align{k}" for k in (1, 2, 3, 5, 7, 8, 9, 13, 15)]
     if tier == "thorough": modes = modes * 8
     return [gen(r, f"{prefix}{i}", mode=m) for i, m in enumerate(modes)]
 
@@ -35,6 +35,14 @@ def gen(r, hid, mode=None, max_lifetimes=2):
         if mode == "packedbool": ops = [x for n in order[:2] for x in (f"I:{n}:bool:{r.randint(0, 1)}", "C:t0", "C:t1", "C:t2")] + [f"I:{order[0]}:bool:{r.randint(0, 1)}", "C:t0", "C:t1"]
         else: ops = [x for n in order[:2] for x in (f"I:{n}:{r.choice(['raw', 'clo'])}:{r.randint(0, 3)}", "C:t0", "C:t1", "C:t2")]
         lts = [ops]
+        return f"{hid} {','.join(decl + names + ['fk0', 'fk1', 'fk2', 'fk3'])} " + "|".join(",".join(o) for o in lts), lts
+    if mode == "foreign_lo":
+        # a page-aligned target whose first allocation hints (target - 128 MiB, page by page) point at pages that belong to somebody else
+        B = region(r); t = B
+        decl = [f"A={B:x}/2", f"F={t:x}/1111", f"F={t + 16:x}/aaa1", "S", f"X={t - R:x}/{r.choice([1, 2, 4]):x}"]
+        names = [f"t0@{t:x}", f"n0@{t + 16:x}"]
+        ops = [f"I:t0:{r.choice(['raw', 'clo', 'fake', 'unc'])}:{r.randint(0, 3)}", "C:t0", f"I:n0:raw:{r.randint(0, 3)}", "C:n0"]
+        lts = [ops, [f"I:t0:raw:{r.randint(0, 3)}"]]
         return f"{hid} {','.join(decl + names + ['fk0', 'fk1', 'fk2', 'fk3'])} " + "|".join(",".join(o) for o in lts), lts
     if mode == "alias":
         # the named function is a forwarding stub (jmp rel32) to its neighbour: only the STUB's entry may change
